@@ -32,8 +32,11 @@ pub struct ProxySummary {
 
 impl ProxySummary {
     pub fn to_key_string(&self) -> String {
+        // the fields are joined by NUL, a byte none of them can contain, so that two callers whose
+        // fields differ never share a summary entry (a space-joined key merged e.g. the executable
+        // "/x/a b" with arguments "c" and the executable "/x/a" with arguments "b c")
         format!(
-            "{} {} {} {} {} {} {}",
+            "{}\0{}\0{}\0{}\0{}\0{}\0{}",
             self.userName,
             self.clientIp,
             self.ip,
